@@ -54,6 +54,49 @@ def classify_membership(e, mvar_ok, libname):
     return None
 
 
+
+def keyed_guard(fn, add_call):
+    """Is the registry add guarded by `if not any(<v>.module == M and <name of v.command> == N for v in <registry>)`
+    where M is the module the added entry records?  (structural: variable names and helper extraction do not matter)"""
+    for n in ast.walk(fn):
+        if not (isinstance(n, ast.If) and any(x is add_call for s in n.body for x in ast.walk(s))):
+            continue
+        t = n.test
+        if not (isinstance(t, ast.UnaryOp) and isinstance(t.op, ast.Not)):
+            continue
+        c = t.operand
+        if not (isinstance(c, ast.Call) and isinstance(c.func, ast.Name) and c.func.id == "any" and c.args and isinstance(c.args[0], (ast.GeneratorExp, ast.ListComp))):
+            continue
+        g = c.args[0]
+        if len(g.generators) != 1 or not isinstance(g.generators[0].target, ast.Name) or g.generators[0].ifs and False:
+            continue
+        v = g.generators[0].target.id
+        if not K.src(g.generators[0].iter).endswith("_commands"):
+            continue
+        conj = [g.elt] + list(g.generators[0].ifs)
+        cmps = []
+        for e in conj:
+            if isinstance(e, ast.BoolOp) and isinstance(e.op, ast.And):
+                cmps.extend(e.values)
+            else:
+                cmps.append(e)
+        mod_side = None
+        name_ok = False
+        for e in cmps:
+            if not (isinstance(e, ast.Compare) and len(e.ops) == 1 and isinstance(e.ops[0], ast.Eq)):
+                continue
+            a, b = e.left, e.comparators[0]
+            for x, y in ((a, b), (b, a)):
+                if isinstance(x, ast.Attribute) and x.attr == "module" and isinstance(x.value, ast.Name) and x.value.id == v:
+                    mod_side = K.src(y)
+                elif ("%s.command" % v) in K.src(x) and v not in K.names_in(y):
+                    name_ok = True
+        added = add_call.args[0] if add_call.args else None
+        rec = K.src(added.args[0]) if isinstance(added, ast.Call) and added.args else None
+        if mod_side is not None and name_ok and rec == mod_side:
+            return True
+    return False
+
 def run(ctx, idx):
     A = K.anchors(idx)
     ctx.rule("C19.a", "The predicate selecting registry entries for a requested library is module equality or a dotted-prefix test (lib + '.'); a bare startswith(lib) or substring test also admits libraries whose names merely share the prefix.")
@@ -190,8 +233,7 @@ def run(ctx, idx):
             ctx.ob("C19.c", con, mod.rel, n.lineno, ok, "registry created empty in the metaclass body", nontrivial=False)
         elif fi is new and hit == "add":
             # keyed by module and name: the add is guarded by a not-any(module == and name ==) test
-            s = K.src(new.node)
-            keyed = "info.module == new_class.__module__" in s.replace("  ", " ") and "== command_name" in s
+            keyed = keyed_guard(new.node, n)
             ctx.ob("C19.c", con, mod.rel, n.lineno, keyed, "add-only, keyed by (module, command name)" if keyed else "registry add is not keyed by module and command name")
         elif fi is new and hit == "assign" and isinstance(n, ast.Assign) and K.src(n.value).endswith("._commands"):
             ctx.hold("C19.c", con, mod.rel, n.lineno, "class attribute aliases the single registry", nontrivial=False)
